@@ -21,7 +21,7 @@ pub fn check_case(case: &Case) -> CaseResult {
     let stream = case.stream.bytes();
     let block = case.delivery.block_size().unwrap_or(hcobs::DEFAULT_BLOCK_SIZE);
     let mut arena = ByteArena::new();
-    stream_in::prepare_arena(&mut arena, case.delivery.arena_prep);
+    stream_in::prepare_arena_for(&mut arena, &case.delivery);
     let mut reader = CyclicReader::new(&stream, &case.delivery);
     let mut chunker = StreamChunker::default();
 
@@ -124,6 +124,15 @@ pub fn run(ctx: &Ctx, rep: &mut Report) {
     engine::drive(ctx, rep, "random", case_strategy(), cases, check_case);
     let cases = ctx.share(ctx.tier.pick(12_000, 200_000));
     engine::drive(ctx, rep, "long-streams", long_case_strategy(), cases, check_case);
+    // The same short streams against an arena whose current chunk is a maximum-size one
+    // with 0..4 bytes (or a block or so) left.
+    let cases = ctx.share(ctx.tier.pick(12_000, 300_000));
+    let big = (case_strategy(), prop_oneof![3 => 2u8..7, 1 => 7u8..40]).prop_map(|(mut c, prep)| {
+        c.delivery.big_chunk = true;
+        c.delivery.arena_prep = prep;
+        c
+    });
+    engine::drive(ctx, rep, "max-size-chunk", big, cases, check_case);
 }
 
 fn replay(_ctx: &Ctx, _group: &str, case: &Value) -> CaseResult {
@@ -133,7 +142,7 @@ fn replay(_ctx: &Ctx, _group: &str, case: &Value) -> CaseResult {
 pub fn def() -> PropDef {
     PropDef {
         id: "C08",
-        rule: "A case is (stream description, delivery): the stream is a sequence of tokens - canonical encodings of small payloads, torn (truncated) and corrupted encodings, garbage, lone FE - each followed by 0..3 FE FD delimiters, optionally truncated as a whole; the delivery is a scripted reader (short reads down to one byte, Interrupted errors, optionally repeating), an io_block_size from {0,1,2,3,4,5,7,8,64,4096,70000,default} and an arena preparation (fresh, pre-sized, 0..4 bytes left in the current chunk). pump is called until Eof and twice more. Oracle with running position q: Sentinel(o) has o = q+2 and the stream holds FE FD at q; Data(o, s) is non-empty, equals stream[q..o], contains no FE FD, and a Data ending in FE is never followed by a Data starting with FD; Eof only at the real end and sticky; Sentinel count = number of FE FD occurrences. Non-trivial: the stream has a delimiter and some read delivered exactly the FE of an FE FD pair last. Distinct: hash of the serialised case.",
+        rule: "A case is (stream description, delivery): the stream is a sequence of tokens - canonical encodings of small payloads, torn (truncated) and corrupted encodings, garbage, lone FE - each followed by 0..3 FE FD delimiters, optionally truncated as a whole; the delivery is a scripted reader (short reads down to one byte, Interrupted errors, optionally repeating), an io_block_size from {0,1,2,3,4,5,7,8,64,4096,70000,default} and an arena preparation (fresh, pre-sized, 0..4 bytes left in the current chunk; max-size-chunk: the current chunk is a 1 MiB one with 0..37 bytes left). pump is called until Eof and twice more. Oracle with running position q: Sentinel(o) has o = q+2 and the stream holds FE FD at q; Data(o, s) is non-empty, equals stream[q..o], contains no FE FD, and a Data ending in FE is never followed by a Data starting with FD; Eof only at the real end and sticky; Sentinel count = number of FE FD occurrences. Non-trivial: the stream has a delimiter and some read delivered exactly the FE of an FE FD pair last. Distinct: hash of the serialised case.",
         assumptions: &["readers only deliver short reads and Interrupted errors (hard errors and premature end of file are C17's subject)"],
         exhaustive_note: None,
         shards: |t: Tier| t.pick(8, 16),
